@@ -169,12 +169,12 @@ def run(c, facts, tier):
     c.ob("C15.hash-order", "crate", "hash-iteration census", True, "%d iteration site(s) over hash collections" % nh, nontrivial=False)
     # definitions come from a Vec
     for M in codegen.MANAGERS:
-        st = facts.struct(M)
-        vt = {f["name"]: norm_ty(f["ty"]) for f in st["fields"]}
+        from .. import mgrstate
+
+        lay = mgrstate.layout(facts, M)
         dk = codegen.mgr_key(facts, M, "definitions")
-        t = rx.tail_expr(facts.fn(dk).body)
-        fld = t["recv"]["name"] if t is not None and t["k"] == "mcall" and t["m"] == "join" and t["recv"]["k"] == "field" else None
-        c.ob("C15.hash-order", dk, "definitions are rendered from an insertion-ordered vector", fld is not None and vt.get(fld, "").startswith("Vec<"), "definitions() joins self.%s: %s" % (fld, vt.get(fld)))
+        vp = [p_ for p_, r_ in lay["alias"].items() if r_ == "vars"]
+        c.ob("C15.hash-order", dk, "definitions are rendered from an insertion-ordered vector", len(vp) == 1 and lay["paths"].get(vp[0], "").startswith("Vec<"), "definitions() joins %s: %s" % (vp, lay["paths"].get(vp[0]) if vp else None))
     # ---------------------------------------------------------------- clock
     if clock_sites:
         p, cl = clock_sites[0]
